@@ -13,7 +13,8 @@ Not decided: that the merge/split iteration terminates at the global optimum.
 import copy
 from fractions import Fraction
 
-from ..facts import AnalysisBroken
+from ..facts import AnalysisBroken, walk
+from ..astq import calls, writes, written_field, norm, literal_value
 from ..microai.interp import Interp, Obj, Vec, Box, enumerate_paths, AssertFail, Thrown, Unsupported
 from ..microai.poly import Poly, Rat, to_poly, num_den
 from ..rules import vpsc_siblings
@@ -410,12 +411,68 @@ def rule_refine_rescan(chk, prog):
     (r.bad if bad else r.ok)("vpsc::Solver::refine", fn.where(), bad or "")
 
 
+def rule_solve_exit(chk, prog):
+    """IncSolver::solve: a pass of satisfy() splits each block at most once (on its minimum multiplier); a split across a degenerate
+    constraint is undone by the following merges at unchanged cost, so `cost unchanged` alone does not mean `no negative multiplier`."""
+    from ..rules.guards import formula, atoms, evalf
+    from ..cfg import CFG
+    r = chk.rule("SOLVE-EXIT-KKT", "IncSolver::solve (both copies) keeps iterating while the last pass of splitBlocks() split a block: the "
+                 "loop condition holds whenever splitCnt > 0 (up to an iteration bound), not only while the cost changes; splitBlocks "
+                 "resets splitCnt on entry and counts every split it performs", floor=4)
+    for ns in ("vpsc", "Avoid"):
+        fn = prog.fn(ns + "::IncSolver::solve")
+        loops = [n for n in fn.nodes() if n.get("k") in ("WhileStmt", "DoStmt") and any(c.get("cname") == ns + "::IncSolver::satisfy" for c in walk(n.get("body") or {}))]
+        r.count()
+        if len(loops) != 1:
+            raise AnalysisBroken("%s::IncSolver::solve: refinement loop not recognised" % ns)
+        f = formula(loops[0]["cond"])
+        env = {}
+        has_split = False
+        for a in atoms(f):
+            if "splitCnt" in a:
+                env[a] = True
+                has_split = True
+            elif "cost" in a:
+                env[a] = False
+            else:
+                env[a] = True          # iteration bounds and the like
+        if not has_split or not evalf(f, env):
+            r.bad(ns + "::IncSolver::solve", fn.loc(loops[0]), "the refinement loop `while %s` stops as soon as a pass leaves the cost unchanged, even "
+                  "if that pass split a block (a split across a degenerate, zero-gain constraint is re-merged at the same cost): blocks "
+                  "whose minimum multiplier is still negative are never split and solve() returns a non-optimal placement" % norm(loops[0]["cond"]))
+        else:
+            r.ok(ns + "::IncSolver::solve", fn.loc(loops[0]))
+        sb = prog.fn(ns + "::IncSolver::splitBlocks")
+        g = CFG(sb)
+        fld = ns + "::IncSolver::splitCnt"
+        resets = [node for lhs, node, op in writes(sb) if written_field(lhs)[0] == fld and op == "=" and literal_value(node["ch"][1]) == "0"]
+        incs = [node for lhs, node, op in writes(sb) if written_field(lhs)[0] == fld and op in ("++", "+=")]
+        splits = [c for c in calls(sb) if c.get("cname") == ns + "::Block::split"]
+        r.count()
+        bad = None
+        if not resets or g.must_precede([x["id"] for x in resets], splits[0]["id"]) is not None if splits else True:
+            bad = "splitCnt is not reset before the blocks are scanned"
+        elif not splits:
+            bad = "splitBlocks no longer splits"
+        else:
+            for sp in splits:
+                pre = g.search("entry", blocked=[x["id"] for x in incs], targets=[sp["id"]])
+                post = g.must_follow(sp["id"], [x["id"] for x in incs])
+                lp = [a for a in sb.ancestors(sp) if a.get("k") == "ForStmt"]
+                # the increment sits in the same iteration as the split: either before it or after it on every path
+                inc_in_iter = lp and any(x["id"] in {w.get("id") for w in walk(lp[0]["body"])} for x in incs)
+                if not inc_in_iter:
+                    bad = "a split is performed without being counted in splitCnt"
+        (r.bad if bad else r.ok)(ns + "::IncSolver::splitBlocks", sb.where(), bad or "")
+
+
 def run(chk):
     prog = chk.load()
     PROG[0] = prog
     rule_block_optimum(chk, prog)
     rule_minlm_argmin(chk, prog)
     rule_refine_rescan(chk, prog)
+    rule_solve_exit(chk, prog)
     rule_dfdv_form(chk, prog)
     rule_lm_kkt(chk, prog)
     r = chk.rule("SIBLING", "every function of libavoid's solver copy is structurally identical to its libvpsc counterpart "
